@@ -441,7 +441,7 @@ def r6_enum_map(c, facts):
         ('oal_compiler::eval::eval_unary_operation', 'UnaryOperator', frozen({'Optional': 'required=Bool(false)', 'Required': 'required=Bool(true)'}), 'optional / required marks'),
         ('oal_compiler::eval::eval_primitive', 'PrimitiveKind', lambda v, t: ({'Bool': 'primboolean', 'Int': 'priminteger', 'Num': 'primnumber', 'Str': 'primstring', 'Uri': 'uri'}.get(v, '#') in low(t)), 'primitive kind -> schema value'),
         ('oal_compiler::eval::eval_literal', 'LiteralKind', lambda v, t: True, 'literal kind (checked in C01)'),
-        ('oal_openapi::Builder::value_schema', 'SchemaExpr', lambda v, t: low(t).startswith({'Num': 'number', 'Str': 'string', 'Bool': 'boolean', 'Int': 'integer', 'Rel': 'rel', 'Uri': 'uri', 'Object': 'object', 'Array': 'array', 'Op': '', 'Ref': ''}.get(v, '#')), 'schema expression -> schema builder'),
+        ('oal_openapi::Builder::value_schema', 'SchemaExpr', lambda v, t: low(t).startswith({'Num': 'number', 'Str': 'string', 'Bool': 'boolean', 'Int': 'integer', 'Rel': ('rel', 'uri'), 'Uri': 'uri', 'Object': 'object', 'Array': 'array', 'Op': '', 'Ref': ''}.get(v, '#')), 'schema expression -> schema builder'),
         ('oal_openapi::Builder::value_schema', 'VariadicOperator', lambda v, t: low(t).startswith({'Join': 'join', 'Sum': 'sum', 'Any': 'any', 'Range': ''}.get(v, '#')), 'operator -> composition builder'),
         ('oal_compiler::eval::cast_schema', 'Expr', frozen({'Object': 'Object', 'PrimInteger': 'Int', 'PrimNumber': 'Num', 'PrimString': 'Str', 'PrimBoolean': 'Bool', 'Array': 'Array', 'Uri': 'Uri', 'VariadicOp': 'Op', 'Reference': 'Ref', 'Relation': 'Rel', 'Recursion': 'Ref'}), 'value -> schema expression'),
     ]
@@ -532,13 +532,20 @@ def r7_fallback_order(c, facts):
     R = c.rule('C02.R7', 'FALLBACK-ORDER: when two places can supply one document field, the language\'s precedence is kept')
     for q, fld, want, why in FALLBACKS:
         fn = facts.fn(q)
-        if fn is None:
-            c.bad(R, 'anchor-missing:' + q, '%s not found' % q)
-            continue
-        chains = or_chains(facts, fn)
-        hit = [ch for ch in chains if want[0] in ch[0] and want[1] in ch[1]]
-        rev = [ch for ch in chains if want[1] in ch[0] and want[0] in ch[1]]
-        inst = {'fn': q, 'field': fld, 'precedence': want, 'why': why}
+        # the function named in the table is where the chain lives today; if it was merged into or split off another
+        # function of the crate the chain is looked for there (the rule is about the two sources, not about the function)
+        cands = [fn] if fn is not None else []
+        cands += sorted((f for f in facts.fns.values() if f.crate == q.split('::')[0] and f.mir and f.kind != 'Closure' and f is not fn), key=lambda f: f.qname)
+        hit = rev = []
+        where = q
+        for f2 in cands:
+            chains = or_chains(facts, f2)
+            hit = [ch for ch in chains if want[0] in ch[0] and want[1] in ch[1]]
+            rev = [ch for ch in chains if want[1] in ch[0] and want[0] in ch[1]]
+            if hit or rev:
+                where = f2.qname
+                break
+        inst = {'fn': where, 'field': fld, 'precedence': want, 'why': why}
         if hit:
             c.ok(R, inst)
         elif rev:
